@@ -12,7 +12,7 @@ PY = "/venv/bin/python"
 FEATURES = ["custom_lro", "server_stream", "bidi_stream", "client_stream", "scalars", "single_enum", "nested", "recursive_optional",
             "map_field", "oneof_flat", "proto3_optional", "reserved_field", "required_scalars_query", "required_message_query",
             "uuid4", "routing", "additional_bindings", "multi_seg_var", "two_path_vars", "int_path_var", "body_star", "paged_wrapper",
-            "paged_scalar", "paged_map", "delete_void", "keyword_rpc", "second_service", "resource_second", "repeated_scalars"]
+            "paged_scalar", "paged_map", "delete_void", "keyword_rpc", "second_service", "resource_second", "repeated_scalars", "toplevel_collection", "no_http_methods"]
 
 
 def gen_case(r: apigen.Rng):
@@ -121,6 +121,21 @@ def build(case):
         shelf = f.msg("Shelf").resource("lib.example.com/Shelf", "shelves/{shelf}"); shelf.field("name")
         gs = f.msg("GetShelfRequest"); gs.field("name", required=True, ref="lib.example.com/Shelf")
         s.method("GetShelf", gs, shelf, http=("get", "/v1/{name=shelves/*}"), sigs=["name"])
+    if "toplevel_collection" in F:
+        # top-level collections: a paged List, a Get-by-query and a Create whose URIs have NO path variable (no implicit routing header)
+        shelf2 = f.msg("Rack").resource("lib.example.com/Rack", "racks/{rack}"); shelf2.field("name"); shelf2.field("size", "int32")
+        lsr = f.msg("ListRacksRequest"); lsr.field("page_size", "int32"); lsr.field("page_token"); lsr.field("filter")
+        lsp = f.msg("ListRacksResponse"); lsp.field("racks", "message", repeated=True, type_name=shelf2); lsp.field("next_page_token")
+        s.method("ListRacks", lsr, lsp, http=("get", "/v1/racks"))
+        crr = f.msg("CreateRackRequest"); crr.field("rack", "message", type_name=shelf2, required=True)
+        s.method("CreateRack", crr, shelf2, http=("post", "/v1/racks"), body="rack", sigs=["rack"])
+    if "no_http_methods" in F:
+        # gRPC-only methods (no google.api.http): unary and paged
+        pq = f.msg("PingRequest"); pq.field("note")
+        s.method("Ping", pq, pq)
+        lpr = f.msg("ListPingsRequest"); lpr.field("page_size", "int32"); lpr.field("page_token")
+        lpp = f.msg("ListPingsResponse"); lpp.field("pings", "string", repeated=True); lpp.field("next_page_token")
+        s.method("ListPings", lpr, lpp)
     if "second_service" in F:
         s2 = f.service("Catalog")
         s2.method("GetBook", g, book, http=("get", "/v1/catalog/{name=shelves/*/books/*}"), sigs=["name"])
